@@ -172,7 +172,19 @@ Example C17_identity_with_error :
     winner (fst (run h ie_ss ie_ops)) 0%nat = [].
 Proof. eexists. split; [vm_compute; reflexivity|]. split; [eexists; vm_compute; auto|]. vm_compute. auto. Qed.
 
+(* the latency wait does not depend on any limit being configured: latency alone (no limiter at
+   all) still delays the first read; Provision accepts the configuration *)
+Definition lo_cfg : tconfig :=
+  {| rp := 0; rq := 1; rmax := false; rburst := 0; trp := 0; trq := 1; trmax := false; tburst := 0; latency := 80000000 |}.
+Example C17_latency_only :
+  exists h, provision lo_cfg = Some h /\ hlocal h = None /\ htotal h = None /\
+    snd (run h [{| sstart := 1000; sjit := 0; scancel := false; sdata := repeat x44 20 |}]
+               [{| oc := 0; olen := 16; odelay := 0; oj2 := 0; oj3 := 0; oavail := 16; oerr := 0 |}])
+    = [EPull 0%nat 80001000 16 (repeat x44 16) 0].
+Proof. eexists. split; [vm_compute; reflexivity|]. vm_compute. auto. Qed.
+
 Print Assumptions C17_throttle_bound.
+Print Assumptions C17_latency_only.
 Print Assumptions C17_identity_with_error.
 Print Assumptions C17_back_jump_excess.
 Print Assumptions C17_throttle_bound_total.
